@@ -36,6 +36,26 @@ class RejectPeer(BasePeer):
             conn.link.finish("eof")
 
 
+class RedirectPeer(BasePeer):
+    """Answers the upgrade request with a redirect to another URL."""
+
+    def __init__(self, world, location, status=302):
+        self.w = world
+        self.buf = bytearray()
+        self.location = location
+        self.status = status
+        self.done = False
+
+    def on_bytes(self, conn, data):
+        if self.done:
+            return
+        self.buf += data
+        if R.split_head(self.buf) is not None:
+            self.done = True
+            conn.write(R.build_response(self.status, "Found", [("Location", self.location), ("Content-Length", "0")]))
+            conn.link.finish("eof")
+
+
 class AppRun:
     """Everything observed during one run_forever call."""
 
@@ -106,7 +126,20 @@ def run_app(sc, choices=None, world_hook=None):
         return p
 
     port = 443 if tls else 80
+    # 'cross_redirect': the application's URL has the other scheme; its server only redirects to the serving one, so the
+    # connection that carries the traffic is of another kind (TLS or not) than the URL the application was given
+    cross = bool(runopt.get("cross_redirect"))
+    url_tls = (not tls) if cross else tls
     w.net.add_host(HOST, [(_rs.AF_INET, ADDR)])
+    if cross:
+        def redirector(conn):
+            p = RedirectPeer(w, f"{'wss' if tls else 'ws'}://{HOST}/app")
+            if url_tls:
+                from .tls import TLSPeer
+                return TLSPeer(w, p, "good")
+            return p
+
+        w.net.listen(ADDR, 443 if url_tls else 80, redirector)
     outcomes = [c.get("outcome", "accept") for c in conns]
 
     class _Listener(dict):
@@ -123,10 +156,10 @@ def run_app(sc, choices=None, world_hook=None):
     lst = {"outcome": "accept", "peer": fac, "cfg": {"link": dict(sc.get("link") or {})}}
     w.net.listeners[(ADDR, port)] = _DynListener(lst, listener_for_attempt, conn_specs, conns)
     runs = []
-    url = f"{'wss' if tls else 'ws'}://{HOST}/app"
+    url = f"{'wss' if url_tls else 'ws'}://{HOST}/app"
     with w:
         ws = w.ws
-        if tls:
+        if tls or url_tls:
             from . import tls as simtls
             simtls.install()
         cur = [None]
@@ -168,7 +201,7 @@ def run_app(sc, choices=None, world_hook=None):
             rf["ping_payload"] = runopt["ping_payload"]
         if runopt.get("skip_utf8"):
             rf["skip_utf8_validation"] = True
-        if tls:
+        if tls or url_tls:
             import ssl
             rf["sslopt"] = {"cert_reqs": ssl.CERT_NONE, "check_hostname": False}
         rel = None
